@@ -95,7 +95,20 @@ impl std::error::Error for InjectedFault {}
 pub const OWN_VALUE_TAG: &str = " [the source's own error value]";
 
 pub fn is_injected(e: &io::Error) -> bool {
-    e.get_ref().map_or(false, |r| r.is::<InjectedFault>())
+    e.get_ref().map_or(false, |r| {
+        r.is::<InjectedFault>() || r.downcast_ref::<io::Error>().map_or(false, |inner| inner.get_ref().map_or(false, |p| p.is::<InjectedFault>()))
+    })
+}
+
+/// The error value of a failing source: marker payload, or (wrapped) an inner error of a different
+/// kind carrying the marker.
+pub fn injected_error(kind: ErrKind, wrapped: bool) -> io::Error {
+    if wrapped {
+        let inner_kind = if kind.kind() == io::ErrorKind::TimedOut { io::ErrorKind::Other } else { io::ErrorKind::TimedOut };
+        io::Error::new(kind.kind(), io::Error::new(inner_kind, InjectedFault))
+    } else {
+        io::Error::new(kind.kind(), InjectedFault)
+    }
 }
 
 /// Text of an I/O error as the drivers record it.
@@ -115,6 +128,14 @@ pub struct Schedule {
     /// C14 only: at the n-th data read, report `extra` more bytes than were copied.
     #[serde(default)]
     pub overreport: Option<(u32, u32)>,
+    /// With `fail_at`: the source keeps returning its error on every later call (a dead
+    /// connection) instead of reporting end of input afterwards (a glitch).
+    #[serde(default)]
+    pub sticky: bool,
+    /// With `fail_at`: the error's payload is itself an `io::Error` (of another kind) that carries
+    /// the marker: what the caller must get is the outer error, not its "root cause".
+    #[serde(default)]
+    pub wrapped: bool,
 }
 
 impl Schedule {
@@ -124,6 +145,8 @@ impl Schedule {
             fail_at: None,
             line_bounded: false,
             overreport: None,
+            sticky: false,
+            wrapped: false,
         }
     }
     pub fn bytewise() -> Schedule {
@@ -276,6 +299,9 @@ impl Read for Source {
         }
         if log.terminal_returned {
             log.calls_after_terminal += 1;
+            if let (true, Some((_, kind))) = (self.sched.sticky && log.terminal_was_error, self.sched.fail_at) {
+                return Err(injected_error(kind, self.sched.wrapped));
+            }
             return Ok(0);
         }
         if buf.is_empty() {
@@ -316,7 +342,7 @@ impl Read for Source {
             return match self.sched.fail_at {
                 Some((_, kind)) => {
                     log.terminal_was_error = true;
-                    Err(io::Error::new(kind.kind(), InjectedFault))
+                    Err(injected_error(kind, self.sched.wrapped))
                 }
                 None => Ok(0),
             };
@@ -560,6 +586,8 @@ pub fn schedule_strategy() -> impl Strategy<Value = Schedule> {
             fail_at: None,
             line_bounded: false,
             overreport: None,
+            sticky: false,
+            wrapped: false,
         }
         .normalised()
     })
